@@ -215,6 +215,12 @@ func verifC16CStep(s verifC16CState, in verifC16CIn, out verifC16COut) (bool,
 		return out.Class == "refused", s
 	}
 	okOut := out.Class == "ok"
+	// The store methods return the record as of their own transaction
+	// (recorded for direct store calls only; the tower does not hand it
+	// out): it must be the state right after the operation.
+	retOK := func(after verifC16CState) bool {
+		return out.Proj == "" || out.Proj == after.proj()
+	}
 	find := func(id uint64) int {
 		for i, a := range n.Atts {
 			if a.ID == id {
@@ -273,7 +279,7 @@ func verifC16CStep(s verifC16CState, in verifC16CIn, out verifC16COut) (bool,
 		sort.Slice(n.Atts, func(i, j int) bool {
 			return n.Atts[i].ID < n.Atts[j].ID
 		})
-		return okOut, n
+		return okOut && retOK(n), n
 
 	case "settle", "failatt":
 		if st != verifC16CInitiated && st != verifC16CInFlight {
@@ -288,14 +294,14 @@ func verifC16CStep(s verifC16CState, in verifC16CIn, out verifC16COut) (bool,
 		} else {
 			n.Atts[i].Failed = true
 		}
-		return okOut, n
+		return okOut && retOK(n), n
 
 	case "failpay":
 		if st == verifC16CNone {
 			return refused()
 		}
 		n.Reason = int(in.Reason)
-		return okOut, n
+		return okOut && retOK(n), n
 
 	case "delall":
 		// DeletePayments never refuses: payments that are not
@@ -424,9 +430,16 @@ type verifC16CSched struct {
 	writers atomic.Int64 // write transactions of clients under way
 	holds   atomic.Int64 // holds taken
 	holdsOK atomic.Int64 // holds ended by another client's commit
+	roHolds atomic.Int64 // holds taken after a read-only transaction
+	roOK    atomic.Int64 // ... ended by another client's commit
 	planIdx atomic.Int64
 	before  []verifC16CPause
 	after   []verifC16CPause
+	// afterRO is used instead of after when the transaction that just
+	// returned was read-only: a call that checks in a read-only
+	// transaction and writes in a later one has its boundary there, so the
+	// client is mostly held until another client's write has committed.
+	afterRO []verifC16CPause
 	clients sync.Map // goroutine id -> *verifC16CClient
 	mu      sync.Mutex
 	txs     []verifC16CTx
@@ -476,9 +489,27 @@ func (s *verifC16CSched) arm(r *verifRng) {
 				us: 2000 + r.Intn(12000)}
 		}
 	}
+	// Separate stream: the tables above stay what they were.
+	rr := r.Fork("afterro")
+	s.afterRO = make([]verifC16CPause, n)
+	for i := 0; i < n; i++ {
+		switch w := rr.Intn(100); {
+		case w < 12:
+		case w < 20:
+			s.afterRO[i] = verifC16CPause{kind: verifC16CPYield}
+		case w < 40:
+			s.afterRO[i] = verifC16CPause{kind: verifC16CPHold,
+				us: 300 + rr.Intn(1700)}
+		default:
+			s.afterRO[i] = verifC16CPause{kind: verifC16CPHold,
+				us: 2000 + rr.Intn(12000)}
+		}
+	}
 	s.mu.Lock()
 	s.txs = nil
 	s.mu.Unlock()
+	s.roHolds.Store(0)
+	s.roOK.Store(0)
 	s.planIdx.Store(0)
 	s.running.Store(0)
 	s.holding.Store(0)
@@ -497,7 +528,7 @@ func (s *verifC16CSched) disarm() []verifC16CTx {
 	return txs
 }
 
-func (s *verifC16CSched) pause(p verifC16CPause) {
+func (s *verifC16CSched) pause(p verifC16CPause, afterRO bool) {
 	switch p.kind {
 	case verifC16CPYield:
 		runtime.Gosched()
@@ -533,6 +564,12 @@ func (s *verifC16CSched) pause(p verifC16CPause) {
 		if s.commits.Load() != c0 {
 			s.holdsOK.Add(1)
 		}
+		if afterRO {
+			s.roHolds.Add(1)
+			if s.commits.Load() != c0 {
+				s.roOK.Add(1)
+			}
+		}
 	}
 }
 
@@ -549,7 +586,7 @@ func (s *verifC16CSched) around(ro bool, run func() error) error {
 	}
 	cl := v.(*verifC16CClient)
 	i := int(s.planIdx.Add(1))
-	s.pause(s.before[i%len(s.before)])
+	s.pause(s.before[i%len(s.before)], false)
 	if !ro {
 		s.writers.Add(1)
 	}
@@ -566,7 +603,13 @@ func (s *verifC16CSched) around(ro bool, run func() error) error {
 	s.txs = append(s.txs, verifC16CTx{Client: cl.id, Call: cl.call.Load(),
 		Begin: begin, End: end, RO: ro, OK: err == nil})
 	s.mu.Unlock()
-	s.pause(s.after[i%len(s.after)])
+	if ro {
+		// Boundary between a read-only transaction and whatever the
+		// same call does next (possibly a write transaction).
+		s.pause(s.afterRO[i%len(s.afterRO)], true)
+	} else {
+		s.pause(s.after[i%len(s.after)], false)
+	}
 	return err
 }
 
@@ -881,6 +924,30 @@ type verifC16CCase struct {
 	mu     sync.Mutex
 	recs   []verifC16CRec
 	cls    map[int]*verifC16CClient
+	// direct: the clients call the paymentsdb.DB methods themselves
+	// instead of going through the ControlTower (whose per-hash mutex
+	// serialises RegisterAttempt / SettleAttempt / FailAttempt /
+	// FailPayment / InitPayment). The documented caller contract of the
+	// store (PaymentControl.RegisterAttempt: "Callers MUST serialize calls
+	// to RegisterAttempt for the same payment hash") is kept by regMu: at
+	// most one RegisterAttempt per hash is in progress at any time. No
+	// other method pair is documented as needing caller serialisation
+	// (Fail: "allows concurrent calls ... without synchronization").
+	direct bool
+	regMu  []sync.Mutex
+}
+
+// ret records the MPPayment a direct store call returned.
+func (c *verifC16CCase) ret(out *verifC16COut, p *paymentsdb.MPPayment,
+	err error) {
+
+	if err != nil || p == nil {
+		return
+	}
+	out.Proj = verifC16CProject(p)
+	if k, d := verifC16CSelfCheck(p); k != "" {
+		out.Self = k + ": " + d
+	}
 }
 
 func (c *verifC16CCase) exec(client int, in verifC16CIn) verifC16COut {
@@ -897,33 +964,72 @@ func (c *verifC16CCase) exec(client int, in verifC16CIn) verifC16COut {
 	if cl := c.cls[client]; cl != nil {
 		cl.call.Store(call)
 	}
-	switch in.K {
-	case "init":
+	db := c.st.db
+	switch {
+	case !c.direct:
+	case in.K == "init":
+		err = db.InitPayment(ctx, h, &paymentsdb.PaymentCreationInfo{
+			PaymentIdentifier: h, Value: lnwire.MilliSatoshi(in.Val),
+			CreationTime: verifC16CTime, PaymentRequest: []byte("verif"),
+		})
+	case in.K == "reg":
+		var p *paymentsdb.MPPayment
+		c.regMu[in.H].Lock()
+		p, err = db.RegisterAttempt(ctx, h, c.atts[in.ID])
+		c.regMu[in.H].Unlock()
+		c.ret(&out, p, err)
+	case in.K == "settle":
+		var p *paymentsdb.MPPayment
+		p, err = db.SettleAttempt(ctx, h, in.ID,
+			&paymentsdb.HTLCSettleInfo{Preimage: lntypes.Preimage{7},
+				SettleTime: verifC16CTime})
+		c.ret(&out, p, err)
+	case in.K == "failatt":
+		var p *paymentsdb.MPPayment
+		p, err = db.FailAttempt(ctx, h, in.ID,
+			&paymentsdb.HTLCFailInfo{Reason: paymentsdb.HTLCFailInternal,
+				FailTime: verifC16CTime})
+		c.ret(&out, p, err)
+	case in.K == "failpay":
+		var p *paymentsdb.MPPayment
+		p, err = db.Fail(ctx, h, paymentsdb.FailureReason(in.Reason))
+		c.ret(&out, p, err)
+	case in.K == "delfa":
+		err = db.DeleteFailedAttempts(ctx, h)
+	case in.K == "fetch":
+		var p *paymentsdb.MPPayment
+		p, err = db.FetchPayment(ctx, h)
+		c.ret(&out, p, err)
+	}
+	direct := c.direct && in.K != "del" && in.K != "delall"
+	switch {
+	case direct:
+	case in.K == "init":
 		err = c.st.tower.InitPayment(ctx, h, &paymentsdb.PaymentCreationInfo{
 			PaymentIdentifier: h, Value: lnwire.MilliSatoshi(in.Val),
 			CreationTime: verifC16CTime, PaymentRequest: []byte("verif"),
 		})
-	case "reg":
+	case in.K == "reg":
 		err = c.st.tower.RegisterAttempt(ctx, h, c.atts[in.ID])
-	case "settle":
+	case in.K == "settle":
 		_, err = c.st.tower.SettleAttempt(ctx, h, in.ID,
 			&paymentsdb.HTLCSettleInfo{Preimage: lntypes.Preimage{7},
 				SettleTime: verifC16CTime})
-	case "failatt":
+	case in.K == "failatt":
 		_, err = c.st.tower.FailAttempt(ctx, h, in.ID,
 			&paymentsdb.HTLCFailInfo{Reason: paymentsdb.HTLCFailInternal,
 				FailTime: verifC16CTime})
-	case "failpay":
+	case in.K == "failpay":
 		err = c.st.tower.FailPayment(ctx, h,
 			paymentsdb.FailureReason(in.Reason))
-	case "del":
+	case in.K == "del":
 		// As the RPC server does: straight on the store.
 		err = c.st.db.DeletePayment(ctx, h, in.HO)
-	case "delall":
+	case in.K == "delall":
 		out.N, err = c.st.db.DeletePayments(ctx, in.FO, in.HO)
-	case "delfa":
+	case in.K == "delfa":
 		err = c.st.tower.DeleteFailedAttempts(ctx, h)
-	case "fetch":
+	case in.K == "fetch":
 		var p paymentsdb.DBMPPayment
 		p, err = c.st.tower.FetchPayment(ctx, h)
 		if err == nil {
@@ -1138,6 +1244,131 @@ func verifC16CGen(r *verifRng, base uint64, nh int, value uint64,
 	return pre, clients
 }
 
+// verifC16CGenRace produces the "race" profile: one payment hash, driven on
+// the store itself (direct). The first operation of client 0 is a
+// RegisterAttempt, the first operation of client 1 - both are released together
+// - is the operation it races with on that hash, with amounts and start state
+// such that the registration is admissible before and inadmissible after the
+// other operation (settle of the other shard, payment-level failure, delete)
+// or the other way round (fail of the other shard, re-initiation). Whatever
+// the store makes of it, the outcome has to be one of the two serial orders.
+func verifC16CGenRace(r *verifRng, base, value uint64) (pre []verifC16CIn,
+	clients [][]verifC16CIn, kind string) {
+
+	nextID := base
+	var ids []uint64
+	reg := func(amt uint64) verifC16CIn {
+		nextID++
+		ids = append(ids, nextID)
+		return verifC16CIn{K: "reg", H: 0, ID: nextID, Amt: amt}
+	}
+	small := func() uint64 {
+		if r.Bool() {
+			return value / 4
+		}
+		return value / 2
+	}
+	pre = append(pre, verifC16CIn{K: "init", H: 0, Val: value})
+	failedShard := func() {
+		a := reg(value / 4)
+		pre = append(pre, a, verifC16CIn{K: "failatt", H: 0, ID: a.ID})
+	}
+	var x, y verifC16CIn
+	switch w := r.Intn(100); {
+	case w < 40:
+		// The only other in-flight shard settles.
+		kind = "settle"
+		if r.Chance(1, 4) {
+			failedShard()
+		}
+		a := reg(value / 2)
+		pre = append(pre, a)
+		x, y = reg(small()), verifC16CIn{K: "settle", H: 0, ID: a.ID}
+	case w < 72:
+		// The payment is failed (with or without a shard in flight).
+		kind = "failpay"
+		if r.Chance(1, 4) {
+			failedShard()
+		}
+		if r.Chance(2, 3) {
+			pre = append(pre, reg(value/2))
+		}
+		x, y = reg(small()), verifC16CIn{K: "failpay", H: 0,
+			Reason: byte(r.Intn(6))}
+	case w < 82:
+		// The other shard fails: too much before, fits afterwards.
+		kind = "failatt"
+		a := reg(value / 2)
+		pre = append(pre, a)
+		x, y = reg(value-value/4), verifC16CIn{K: "failatt", H: 0, ID: a.ID}
+	case w < 91:
+		// An initiated payment without live shards is deleted.
+		kind = "del"
+		if r.Chance(1, 3) {
+			failedShard()
+		}
+		x = reg(small())
+		if r.Bool() {
+			y = verifC16CIn{K: "del", H: 0}
+		} else {
+			y = verifC16CIn{K: "delall", H: -1}
+		}
+	default:
+		// A failed payment is initiated again.
+		kind = "init"
+		failedShard()
+		pre = append(pre, verifC16CIn{K: "failpay", H: 0,
+			Reason: byte(r.Intn(6))})
+		x, y = reg(small()), verifC16CIn{K: "init", H: 0, Val: value}
+	}
+	extra := func() verifC16CIn {
+		switch w := r.Intn(100); {
+		case w < 38:
+			return verifC16CIn{K: "fetch", H: 0}
+		case w < 56:
+			in := reg(value / 4)
+			if r.Chance(1, 4) {
+				in.Amt = 1
+			}
+			return in
+		case w < 68:
+			return verifC16CIn{K: "settle", H: 0}
+		case w < 80:
+			return verifC16CIn{K: "failatt", H: 0}
+		case w < 88:
+			return verifC16CIn{K: "failpay", H: 0, Reason: byte(r.Intn(6))}
+		case w < 93:
+			return verifC16CIn{K: "delfa", H: 0}
+		case w < 97:
+			return verifC16CIn{K: "init", H: 0, Val: value}
+		default:
+			return verifC16CIn{K: "del", H: 0}
+		}
+	}
+	nc := 2 + r.Intn(3)
+	clients = make([][]verifC16CIn, nc)
+	clients[0] = []verifC16CIn{x}
+	clients[1] = []verifC16CIn{y}
+	for c := 0; c < nc; c++ {
+		n := r.Intn(3)
+		if c >= 2 {
+			n = 1 + r.Intn(3)
+		}
+		for ; n > 0; n-- {
+			clients[c] = append(clients[c], extra())
+		}
+	}
+	for c := range clients {
+		for i := range clients[c] {
+			in := &clients[c][i]
+			if (in.K == "settle" || in.K == "failatt") && in.ID == 0 {
+				in.ID = ids[r.Intn(len(ids))]
+			}
+		}
+	}
+	return pre, clients, kind
+}
+
 func verifC16COverlaps(recs []verifC16CRec) int {
 	n := 0
 	for i := range recs {
@@ -1157,25 +1388,44 @@ func verifC16COverlaps(recs []verifC16CRec) int {
 func verifC16CRunCase(t *testing.T, vc *verifCtx, st *verifC16CStores,
 	rng *verifRng, idx int) (dirty bool) {
 
+	// Profiles: a quarter of the histories is the "race" profile (one hash,
+	// RegisterAttempt against the operation that changes its admissibility,
+	// on the store itself); an eighth of the others drives the store
+	// directly with the general operation mix.
+	race := rng.Chance(1, 4)
+	direct := race || rng.Chance(1, 8)
 	nh := 1
 	if rng.Chance(1, 4) {
 		nh = 2
 	}
 	contend := rng.Chance(1, 3)
+	if race {
+		nh, contend = 1, false
+	}
 	value := uint64(1000)
 	if rng.Chance(1, 5) {
 		value = 4 + rng.U64n(8)
 	}
 	c := &verifC16CCase{st: st, value: value,
 		atts: map[uint64]*paymentsdb.HTLCAttemptInfo{},
-		cls:  map[int]*verifC16CClient{}}
+		cls:  map[int]*verifC16CClient{}, direct: direct,
+		regMu: make([]sync.Mutex, nh)}
 	for h := 0; h < nh; h++ {
 		var hh lntypes.Hash
 		copy(hh[:], rng.Bytes(32))
 		c.hashes = append(c.hashes, hh)
 	}
 	base := uint64(idx+1) * 128
-	pre, clients := verifC16CGen(rng, base, nh, value, contend)
+	var (
+		pre      []verifC16CIn
+		clients  [][]verifC16CIn
+		raceKind string
+	)
+	if race {
+		pre, clients, raceKind = verifC16CGenRace(rng, base, value)
+	} else {
+		pre, clients = verifC16CGen(rng, base, nh, value, contend)
+	}
 	all := append([]verifC16CIn(nil), pre...)
 	for _, cl := range clients {
 		all = append(all, cl...)
@@ -1266,7 +1516,8 @@ func verifC16CRunCase(t *testing.T, vc *verifCtx, st *verifC16CStores,
 	recs := append([]verifC16CRec(nil), c.recs...)
 	sort.Slice(recs, func(i, j int) bool { return recs[i].Call < recs[j].Call })
 	witness := map[string]any{"case": idx, "backend": st.backend,
-		"value": value, "contend": contend, "history": recs, "txlog": txlog}
+		"value": value, "contend": contend, "direct": direct,
+		"race": raceKind, "history": recs, "txlog": txlog}
 
 	vc.Count("histories", 1)
 	vc.Count("history_ops", int64(len(recs)))
@@ -1297,6 +1548,38 @@ func verifC16CRunCase(t *testing.T, vc *verifCtx, st *verifC16CStores,
 		vc.Count("gaps_interleaved", int64(inter))
 		vc.Count("holds_after_tx", st.sched.holds.Load())
 		vc.Count("holds_released_by_commit", st.sched.holdsOK.Load())
+		vc.Count("holds_after_ro_tx", st.sched.roHolds.Load())
+		vc.Count("holds_after_ro_released_by_commit", st.sched.roOK.Load())
+		if direct {
+			vc.Count("histories_direct", 1)
+			vc.Count("histories_direct_"+st.backend, 1)
+		}
+		for _, r := range recs[preLen:concLen] {
+			if r.In.K != "fetch" && r.Out.Proj != "" {
+				vc.Count("eval_returned_record", 1)
+			}
+		}
+		if race {
+			vc.Count("histories_race", 1)
+			vc.Count("histories_race_"+st.backend, 1)
+			vc.Count("race_kind_"+raceKind, 1)
+			// First operations of client 1 (the registration) and
+			// client 2 (its opponent).
+			var x, y *verifC16CRec
+			for i := preLen; i < concLen; i++ {
+				r := &recs[i]
+				if r.Client == 1 && x == nil {
+					x = r
+				}
+				if r.Client == 2 && y == nil {
+					y = r
+				}
+			}
+			if x != nil && y != nil && x.Call < y.Ret && y.Call < x.Ret {
+				vc.Count("race_pair_overlapped", 1)
+				vc.Count("race_pair_overlapped_"+st.backend, 1)
+			}
+		}
 		if inter > 0 {
 			vc.Count("interleaved_between_tx", 1)
 			vc.Count("interleaved_between_tx_"+st.backend, 1)
@@ -1431,6 +1714,36 @@ func verifC16CRunCase(t *testing.T, vc *verifCtx, st *verifC16CStores,
 					dirty = true
 				}
 			}
+			// "a succeeded payment never changes status": once a
+			// call has returned a record reporting Succeeded, no
+			// call that starts later may return another status
+			// (no payment was created or deleted in this history).
+			var succRet int64 = -1
+			for _, r := range recs {
+				if r.In.H == h && r.Out.Class == "ok" &&
+					strings.HasPrefix(r.Out.Proj, "succeeded ") &&
+					(succRet < 0 || r.Ret < succRet) {
+
+					succRet = r.Ret
+				}
+			}
+			if succRet >= 0 {
+				vc.Count("eval_succeeded_absorbing", 1)
+			}
+			for _, r := range recs {
+				if succRet < 0 || r.In.H != h || r.Call < succRet ||
+					r.Out.Class != "ok" || r.Out.Proj == "" ||
+					strings.HasPrefix(r.Out.Proj, "succeeded ") {
+
+					continue
+				}
+				vc.Violation("conc_succeeded_absorbing", st.backend,
+					fmt.Sprintf("a record reporting Succeeded had been "+
+						"returned, a later %s call returned %q",
+						r.In.K, r.Out.Proj), witness)
+				dirty = true
+				break
+			}
 			if exists && live > value {
 				vc.Violation("conc_conservation", st.backend+":admitted",
 					fmt.Sprintf("admitted, not failed attempt amounts %d "+
@@ -1442,7 +1755,17 @@ func verifC16CRunCase(t *testing.T, vc *verifCtx, st *verifC16CStores,
 
 	// (2b) every record a fetch returned while the clients were running.
 	for _, r := range recs[preLen:concLen] {
-		if r.In.K != "fetch" || r.Out.Class != "ok" {
+		if r.Out.Class != "ok" || (r.In.K != "fetch" && r.Out.Proj == "") {
+			continue
+		}
+		if r.In.K != "fetch" {
+			// Record returned by a direct store call.
+			if r.Out.Self != "" {
+				vc.Violation("conc_status_function",
+					st.backend+":returned", r.In.K+" returned record: "+
+						r.Out.Self, witness)
+				dirty = true
+			}
 			continue
 		}
 		vc.Count("eval_fetched_record", 1)
@@ -1535,8 +1858,8 @@ func verifC16CRunCase(t *testing.T, vc *verifCtx, st *verifC16CStores,
 			toks = append(toks, k+":"+r.Out.Class)
 		}
 		sort.Strings(toks)
-		vc.Sig(fmt.Sprintf("%s|%d|%s", st.backend, len(clients),
-			strings.Join(toks, ",")))
+		vc.Sig(fmt.Sprintf("%s|%d|%v%s|%s", st.backend, len(clients), direct,
+			raceKind, strings.Join(toks, ",")))
 	}
 	if idx%97 == 0 {
 		vc.Sample(witness)
